@@ -313,6 +313,7 @@ def write_replay(prop, violation):
 
 def minimise_file(path, budget=150):
     """Shrink the case in a replay file in place while the same (property, kind) persists."""
+    path = os.path.abspath(path)     # invocations change the working directory
     with open(path) as fobj:
         doc = json.load(fobj)
     mod = load_prop(doc["property"] if doc["property"] in CLAIMED else doc["case"]["_meta"].get("prop", doc["property"]))
@@ -364,6 +365,7 @@ def minimise_file(path, budget=150):
 
 def replay_file(path):
     """-> exit code. Runs in an interpreter whose PYTHONHASHSEED is the recorded one."""
+    path = os.path.abspath(path)
     with open(path) as fobj:
         doc = json.load(fobj)
     want_hs = str(doc.get("hashseed", 0))
